@@ -137,7 +137,22 @@ def _container(case, vals, ctx=None):
         mm[:] = np.array(vals, dtype=case.get("adtype") or case["kind"])
         return mm
     if case["container"] in ("array", "memmap"):
-        return np.array(vals, dtype=case.get("adtype") or case["kind"])
+        a = np.array(vals, dtype=case.get("adtype") or case["kind"])
+        lay = case.get("layout", "contig")
+        if lay == "strided":
+            base = np.zeros(2 * a.size + 1, dtype=a.dtype)
+            v = base[1::2]
+            v[...] = a
+            return v
+        if lay == "column":
+            base = np.zeros((a.size, 3), dtype=a.dtype)
+            base[:, 1] = a
+            return base[:, 1]
+        if lay == "field":
+            rec = np.zeros(a.size, dtype=[("p", "u1"), ("v", a.dtype), ("q", "i2")])
+            rec["v"] = a
+            return rec["v"]
+        return a
     return list(vals)
 
 
@@ -166,7 +181,7 @@ def check_sort(case, ctx):
 def classify_sort(case):
     vals = _values(case)
     n = len(vals)
-    labs = ["kind:" + case["kind"], "container:" + case["container"],
+    labs = ["kind:" + case["kind"], "container:" + case["container"], "layout:" + case.get("layout", "contig"),
             "n:%s" % ("0" if n == 0 else "1" if n == 1 else "2" if n == 2 else "3-30" if n <= 30 else "31-150" if n <= 150 else "151-400" if n <= 400 else ">400")]
     if "gen" in case:
         labs.append("pattern:" + case["gen"]["pattern"])
@@ -184,8 +199,16 @@ def classify_sort(case):
 
 # --------------------------------------------------------------------------- key/value sort
 @st.composite
-def kv_inputs(draw):
+def sort_inputs_l(draw):
     case = draw(sort_inputs())
+    # in-place sorts work on whatever array they are handed: views with strides, table columns, record fields
+    case["layout"] = draw(st.sampled_from(["contig", "contig", "strided", "column", "field"]))
+    return case
+
+
+@st.composite
+def kv_inputs(draw):
+    case = draw(sort_inputs_l())
     case["vcontainer"] = draw(st.sampled_from(["list", "array", "strlist", "dictlist"]))
     case["vmode"] = draw(st.sampled_from(["position", "position", "tied"]))
     return case
@@ -436,7 +459,8 @@ def progress_cases(draw):
     if total is not None:
         opts["total"] = total
     return {"source": kind, "n": n, "opts": opts, "entry": draw(st.sampled_from(["pbar", "PBar", "pbar"])),
-            "take": draw(st.one_of(st.none(), st.integers(0, max(n, 1))))}
+            "take": draw(st.one_of(st.none(), st.integers(0, max(n, 1)))),
+            "payload": draw(st.sampled_from(["ints", "ints", "mixed"]))}
 
 
 def _check_wrapper(case, ctx, wrapper, expected, produced, has_len):
@@ -472,6 +496,10 @@ def _check_wrapper(case, ctx, wrapper, expected, produced, has_len):
 def check_progress(case, ctx):
     import esutil.pbar as pb
     items = [(i * 7) % 5 - 1 for i in range(case["n"])]
+    if case.get("payload") == "mixed":
+        # arbitrary objects, falsy ones and None included: the wrapper yields *the items*
+        pool = [None, 0, "", (), [], False, 0.0, "x", {"k": 1}]
+        items = [pool[(i * 5 + case["n"]) % len(pool)] for i in range(case["n"])]
     if case["source"] == "range":
         items = list(range(case["n"]))
     src, produced = _make_source(case["source"], items)
@@ -623,7 +651,7 @@ def classify_pmap(case):
 
 
 SUBCHECKS = [
-    Subcheck("sort", sort_inputs, check_sort, classify_sort, quick=3000, thorough=60000, journal=False),
+    Subcheck("sort", sort_inputs_l, check_sort, classify_sort, quick=3000, thorough=60000, journal=False),
     Subcheck("sort_kv", kv_inputs, check_sort_kv, classify_sort_kv, quick=2000, thorough=40000, journal=False),
     Subcheck("isplit", isplit_cases, check_isplit, classify_isplit, quick=1200, thorough=30000, journal=False,
              exhaustive=isplit_exhaustive, exhaustive_tiers=("quick", "thorough")),
